@@ -322,6 +322,10 @@ func geojsonExec(c Case) Event {
 			return canonJSON([]interface{}{gg.AsText(), f.ID, p, fm})
 		}
 		ev["want"], ev["got"] = part(f), part(f2)
+		// decoding into a destination that already holds a decoded value replaces it (a reused variable in a decode loop)
+		if err := json.Unmarshal(b, &f2); err != nil || part(f2) != part(f) {
+			ev["got"] = "second decode into the same Feature: " + part(f2) + errStr(err)
+		}
 		fc := geom.GeoJSONFeatureCollection{}
 		for i := 0; i < c.num("nfeat"); i++ {
 			fc = append(fc, f)
@@ -344,6 +348,9 @@ func geojsonExec(c Case) Event {
 			return strings.Join(s, "|") + "#" + strconv.Itoa(len(fc))
 		}
 		ev["wantfc"], ev["gotfc"] = parts(fc), parts(fc2)
+		if err := json.Unmarshal(fb, &fc2); err != nil || parts(fc2) != parts(fc) {
+			ev["gotfc"] = "second decode into the same FeatureCollection: " + parts(fc2) + errStr(err)
+		}
 		_ = reflect.DeepEqual
 		return ev
 	}
